@@ -486,7 +486,10 @@ def routines(ctx, routine, rank, then, order=2):
 # ------------------------------------------------ no hidden state between calls (caches keyed by object identity, ...)
 STATELESS = ['sle.als', 'sle.mals', 'evp.als', 'evp.power_method', 'ode.explicit_euler', 'ode.implicit_euler', 'ode.trapezoidal_rule', 'ode.hod',
              'ode.tdvp1site', 'ode.tdvp2site', 'ode.krylov', 'ode.errors_expl_euler', 'ode.errors_impl_euler', 'ode.errors_trapezoidal',
-             'ode.strang_splitting', 'TT.norm', 'TT.matmul', 'TT.pinv']
+             'ode.strang_splitting', 'TT.norm', 'TT.matmul', 'TT.pinv',
+             # routines on plain data matrices: the data array is changed in place between the two calls
+             'regression.mandy_cm', 'regression.mandy_fm', 'regression.arr', 'tdmd_exact', 'tedmd.amuset_hosvd', 'transform.basis_decomposition',
+             'transform.function_major', 'transform.gram', 'tgedmd.amuset_hosvd']
 
 
 def _stateless_call(ctx, R, routine, A, x, y, h):
@@ -526,7 +529,38 @@ def _stateless_call(ctx, R, routine, A, x, y, h):
         return [A @ x, A @ A]
     if routine == 'TT.pinv':
         return [x.pinv(1)]
+    if routine in DATA_ROUTINES:
+        return DATA_ROUTINES[routine](ctx, R, x)
     raise KeyError(routine)
+
+
+def _dd_phi(ctx, R):
+    from .C15 import _funcs
+    return [_funcs(ctx, R.transform, 1, ['const', 'id']), _funcs(ctx, R.transform, 1, ['id', 'mono2'])]
+
+
+DATA_ROUTINES = {
+    # (ctx, R, x) -> results; the data matrices come from ctx.input under fixed names so that the history run and the reference run see the same symbols
+    'regression.mandy_cm': lambda ctx, R, x: [R.regression.mandy_cm(ctx.cache_data['data'], ctx.cache_data['ydata'], [lambda t: t, lambda t: t * t], threshold=0.0)],
+    'regression.mandy_fm': lambda ctx, R, x: [R.regression.mandy_fm(ctx.cache_data['data'], ctx.cache_data['ydata'], [lambda t: t, lambda t: t * t], threshold=0.0)],
+    'regression.arr': lambda ctx, R, x: list(R.regression.arr(ctx.cache_data['data'], ctx.cache_data['ydata'], _dd_phi(ctx, R), x, repeats=1, progress=False)),
+    'tdmd_exact': lambda ctx, R, x: list(R.tdmd.tdmd_exact(x, ctx.cache_data['y_tt'])),
+    'tedmd.amuset_hosvd': lambda ctx, R, x: _flat(R.tedmd.amuset_hosvd(ctx.cache_data['data3'], np.array([0, 1]), np.array([1, 2]), _dd_phi(ctx, R)[:1], threshold=0)),
+    'transform.basis_decomposition': lambda ctx, R, x: [R.transform.basis_decomposition(ctx.cache_data['data'], _dd_phi(ctx, R))],
+    'transform.function_major': lambda ctx, R, x: [R.transform.function_major(ctx.cache_data['data'], [lambda t: t, lambda t: t * t], add_one=False)],
+    'transform.gram': lambda ctx, R, x: [R.transform.gram(ctx.cache_data['data'], ctx.cache_data['data3'], _dd_phi(ctx, R))],
+    'tgedmd.amuset_hosvd': lambda ctx, R, x: _flat(R.tgedmd.amuset_hosvd(ctx.cache_data['data3'], _dd_phi(ctx, R), ctx.cache_data['sig'], threshold=0, return_option='eigenvectors')),
+}
+
+
+def _flat(res):
+    out = []
+    for r in res:
+        if isinstance(r, (list, tuple)):
+            out.extend(r)
+        else:
+            out.append(r)
+    return out
 
 
 @scenario('C06', 'stateless', lambda tier: [{'routine': r, 'order': o} for o in ((2,) if tier == 'quick' else (2, 3)) for r in STATELESS])
@@ -566,9 +600,16 @@ def stateless(ctx, routine, order=2):
         A = C + C.transpose()
         x = TT(mk_cores(ctx, 'x', sx, False))
         y = TT(mk_cores(ctx, 'y', sx, False))
+
+        def data():
+            return {'data': ctx.input('data', (1, 2), False), 'ydata': ctx.input('ydata', (1, 2), False), 'data3': ctx.input('data3', (1, 3), False),
+                    'sig': ctx.input('sig', (1, 1, 3), False), 'y_tt': TT(mk_cores(ctx, 'y', sx, False))}
+        ctx.cache_data = data()
         _stateless_call(ctx, R, routine, A, x, y, h)
         A.cores[0] = two * A.cores[0]
         x.cores[order - 1] = three * x.cores[order - 1]
+        for k_ in ('data', 'data3'):
+            ctx.cache_data[k_][0, 0] = two * ctx.cache_data[k_][0, 0]          # the caller overwrites an entry of the data matrix in place
         fresh_state()
         got = [dense(o) for o in _stateless_call(ctx, R, routine, A, x, y, h)]
         # ---- reference: fresh objects holding the new values, same environment answers (the stubs number their answers per run)
@@ -579,6 +620,9 @@ def stateless(ctx, routine, order=2):
         x2 = TT(mk_cores(ctx, 'x', sx, False))
         x2.cores[order - 1] = three * x2.cores[order - 1]
         y2 = TT(mk_cores(ctx, 'y', sx, False))
+        ctx.cache_data = data()
+        for k_ in ('data', 'data3'):
+            ctx.cache_data[k_][0, 0] = two * ctx.cache_data[k_][0, 0]
         ref = [dense(o) for o in _stateless_call(ctx, R, routine, A2, x2, y2, h)]
         ctx.check('%s: same number of results' % routine, len(got) == len(ref))
         for j, (a, b) in enumerate(zip(got, ref)):
